@@ -793,6 +793,11 @@ fn main() {
             writeln!(w, "{vline}").unwrap();
             for m in notes { writeln!(w, "X colls cap history :: {m}").unwrap(); }
         }
+        if case % 20 == 12 {
+            let (notes, vline) = capx::zst_history(&mut r, &mut |l: &str| { writeln!(w, "{l}").unwrap(); w.flush().unwrap(); });
+            writeln!(w, "{vline}").unwrap();
+            for m in notes { writeln!(w, "X colls cap history :: {m}").unwrap(); }
+        }
         if case % 5 == 4 {
             let (notes, clines) = partsx::parts_lines(&mut r);
             for c in clines { writeln!(w, "{c}").unwrap(); }
